@@ -178,6 +178,7 @@ func registerTimeIntrinsics(e *Engine) {
 	in["time.Since"] = func(fr *frame, args []value) value { return fr.r.timeSub(fr, fr.r.nowTime(), args[0]) }
 	in["time.Until"] = func(fr *frame, args []value) value { return fr.r.timeSub(fr, args[0], fr.r.nowTime()) }
 	in["(time.Time).Sub"] = func(fr *frame, args []value) value { return fr.r.timeSub(fr, args[0], args[1]) }
+	in["(time.Time).Add"] = func(fr *frame, args []value) value { return fr.r.timeAdd(fr, args[0], args[1]) }
 	in["time.Unix"] = func(fr *frame, args []value) value {
 		r := fr.r
 		ns, ok := args[1].(int64)
@@ -321,6 +322,37 @@ func (r *Run) timeSub(fr *frame, t, u value) value {
 		return c*nsPerSec + dn
 	}
 	return r.binop(fr, token.ADD, nil, r.binop(fr, token.MUL, nil, dsec, int64(nsPerSec)), dn)
+}
+
+// timeAdd computes t+d without the overflow saturation of the real code (the
+// operands are bounded: see scaledBaseOK).
+func (r *Run) timeAdd(fr *frame, t, d value) value {
+	sec, nsec := r.timeParts(fr, t)
+	var dsec value
+	var dn int64
+	switch d := d.(type) {
+	case int64:
+		q, m := floorDivMod(d, nsPerSec)
+		dsec, dn = q, m
+	case Sym:
+		b, k, ok := r.scaledParts(d.T)
+		if !ok {
+			r.inconclusive("time.Add with a symbolic duration that is not seconds*1e9+k at %s", fr.pos())
+		}
+		r.scaledBaseOK(b)
+		dsec, dn = symOrConc(b, types.Int64), k
+	default:
+		panic(fmt.Sprintf("timeAdd: %T", d))
+	}
+	nsec += dn
+	if nsec >= nsPerSec {
+		nsec -= nsPerSec
+		dsec = r.binop(fr, token.ADD, nil, dsec, int64(1))
+	}
+	nsecV := uint64(nsec)
+	newSec := r.binop(fr, token.ADD, nil, sec, dsec)
+	st := t.(structure)
+	return structure{nsecV, r.binop(fr, token.ADD, nil, newSec, unixToInternal), st[2]}
 }
 
 // ---- scaled representation: t = base*10^9 + k, 0 <= k < 10^9 ----
